@@ -310,6 +310,11 @@ func (jenny RawTypes) generateFromJSONMethod(context languages.Context, object a
 		if field.Type.Nullable && field.Type.Default != nil && !field.Type.IsConcreteScalar() && !field.Type.IsConstantRef() {
 			defaultedNullables = append(defaultedNullables, field)
 		}
+		// a nullable constant (`kind: "a" | null`) is set by the constructor too: the
+		// null of the document is one of its two values
+		if field.Type.Nullable && (field.Type.IsConcreteScalar() || field.Type.IsConstantRef()) {
+			defaultedNullables = append(defaultedNullables, field)
+		}
 
 		// No need to unmarshal constant scalar fields since they're set in
 		// the object's constructor
